@@ -37,7 +37,33 @@ func pickDistinct(r *rand.Rand, pool []string, n int) []string {
 
 // genConsumes returns one consumes list and the label of its shape.
 func genConsumes(r *rand.Rand) []string {
-	switch r.Intn(12) {
+	switch r.Intn(15) {
+	case 12:
+		// two or three entries with parameters (possibly two spellings of one type), alone or next to concrete types
+		l := pickDistinct(r, paramEntries, 2+r.Intn(2))
+		if r.Intn(2) == 0 {
+			l = append(l, pickDistinct(r, concretePool, 1+r.Intn(2))...)
+		}
+		r.Shuffle(len(l), func(i, j int) { l[i], l[j] = l[j], l[i] })
+		return l
+	case 13:
+		// a bare type next to its own parameterised spelling (either order), possibly with more entries
+		pe := pick(r, paramEntries)
+		b, _ := stripEntry(pe)
+		l := []string{pe, b}
+		if r.Intn(2) == 0 {
+			l = append(l, pick(r, paramEntries))
+		}
+		if r.Intn(2) == 0 {
+			l = append(l, pick(r, concretePool))
+		}
+		r.Shuffle(len(l), func(i, j int) { l[i], l[j] = l[j], l[i] })
+		return dedupe(l)
+	case 14:
+		// several parameterised entries under a wildcard
+		l := append(pickDistinct(r, paramEntries, 2), pick(r, []string{"*/*", "application/*", "text/*"}))
+		r.Shuffle(len(l), func(i, j int) { l[i], l[j] = l[j], l[i] })
+		return l
 	case 0:
 		return nil
 	case 1, 2:
@@ -95,6 +121,18 @@ func genConsumes(r *rand.Rand) []string {
 	}
 }
 
+func dedupe(l []string) []string {
+	seen := map[string]bool{}
+	var out []string
+	for _, e := range l {
+		if !seen[e] {
+			seen[e] = true
+			out = append(out, e)
+		}
+	}
+	return out
+}
+
 func genRegistered(r *rand.Rand) []string {
 	reg := append([]string{}, concretePool...)
 	if r.Intn(3) == 0 {
@@ -116,13 +154,30 @@ func genRegistered(r *rand.Rand) []string {
 }
 
 func genDefault(r *rand.Rand) string {
-	switch r.Intn(5) {
+	switch r.Intn(6) {
 	case 0, 1:
 		return ""
 	case 2:
 		return "application/json"
+	case 3:
+		return pick(r, paramEntries) // an API default that carries parameters
 	default:
 		return pick(r, concretePool)
+	}
+}
+
+// Accept header values: every operation produces application/json (and that is the API default producer).
+var acceptable = []string{"application/json", "*/*", "application/*", "application/json;q=0.5, text/plain", "text/html, */*;q=0.1", "application/json; charset=utf-8"}
+var unacceptable = []string{"image/png", "text/*", "application/xml;q=0.9, text/plain", "application/json;q=0", "app/*", "application/jso", "*/*;q=0, text/csv", "application/jsonx"}
+
+func genAccept(r *rand.Rand) (has bool, v string) {
+	switch k := r.Intn(10); {
+	case k < 6:
+		return false, ""
+	case k < 8:
+		return true, pick(r, acceptable)
+	default:
+		return true, pick(r, unacceptable)
 	}
 }
 
@@ -390,14 +445,14 @@ func genGroup(r *rand.Rand) *group {
 	}
 	n := 6 + r.Intn(5)
 	for i := 0; i < n; i++ {
-		g.ops = append(g.ops, opSpec{consumes: genConsumes(r)})
+		g.ops = append(g.ops, opSpec{consumes: genConsumes(r), noParam: r.Intn(5) == 0})
 	}
 	return g
 }
 
 func genRequest(r *rand.Rand, g *group, tcp bool) (*Case, int) {
 	i := r.Intn(len(g.ops))
-	c := &Case{Consumes: g.ops[i].consumes, Global: g.global, Default: g.def, Registered: g.registered}
+	c := &Case{Consumes: g.ops[i].consumes, Global: g.global, Default: g.def, Registered: g.registered, NoBodyParam: g.ops[i].noParam}
 	c.Shape = shapeOf(c.Consumes)
 	c.Method = pick(r, methods)
 	var v string
@@ -413,6 +468,9 @@ func genRequest(r *rand.Rand, g *group, tcp bool) (*Case, int) {
 			c.Payload = mon.Q(bigPayload)
 		}
 	}
+	var av string
+	c.HasAccept, av = genAccept(r)
+	c.Accept = mon.Q(av)
 	return c, i
 }
 
